@@ -3,21 +3,22 @@ use std::panic::{catch_unwind, AssertUnwindSafe};
 
 mod refspec;
 use refspec::*;
+mod io_domains;
 
-struct Rng(u64);
+pub struct Rng(u64);
 impl Rng {
-    fn next(&mut self) -> u64 {
+    pub fn next(&mut self) -> u64 {
         self.0 ^= self.0 << 13;
         self.0 ^= self.0 >> 7;
         self.0 ^= self.0 << 17;
         self.0
     }
-    fn below(&mut self, n: u64) -> u64 {
+    pub fn below(&mut self, n: u64) -> u64 {
         self.next() % n
     }
 }
 
-fn hex(b: &[u8]) -> String {
+pub fn hex(b: &[u8]) -> String {
     b.iter().map(|x| format!("{:02x}", x)).collect()
 }
 fn unhex(s: &str) -> Vec<u8> {
@@ -25,11 +26,11 @@ fn unhex(s: &str) -> Vec<u8> {
 }
 
 /// A found counterexample: domain, input (replayable), what was expected / what the real code did.
-struct Cex {
-    domain: &'static str,
-    input: String,
-    expected: String,
-    actual: String,
+pub struct Cex {
+    pub domain: &'static str,
+    pub input: String,
+    pub expected: String,
+    pub actual: String,
 }
 fn report(c: &Cex) {
     let e = |s: &str| s.replace('\\', "\\\\").replace('"', "\\\"").replace('\n', "\\n");
@@ -508,6 +509,10 @@ fn main() {
             "message" => search_message(&mut rng),
             "signtype" => search_signtype(&mut rng),
             "e2e" => search_e2e(&mut rng, 110000),
+            "stream" => io_domains::search_stream(&mut rng, 4000),
+            "serial" => io_domains::search_serial(&mut rng, 2),
+            "bridge" => io_domains::search_bridge(&mut rng, 40),
+            "serial-path" => io_domains::search_serial_path(&mut rng),
             _ => { eprintln!("unknown domain"); std::process::exit(2) }
         };
         match r { Some(c) => { report(&c); std::process::exit(1) } None => { println!("{{\"found\":false,\"domain\":\"{}\"}}", dom); } }
